@@ -9,6 +9,7 @@ structure DS where
   pm : PM := { confs := [], paths := [], nextInc := 0 }
   tG : List Bytes := []   -- names of path objects in the stale-groups class (F-C15b)
   tO : List Bytes := []   -- names of path objects in the delivery-order class (F-C15a)
+  tS : List Bytes := []   -- static configurations whose misordered path was idle-closed (consequence of F-C15a)
 
 def orcOf (t : Table) : Oracle := fun cn n =>
   match t.find? (fun e => e.1 == (cn, n)) with
@@ -125,6 +126,7 @@ structure Judged where
   v : Verdict
   tG : List Bytes
   tO : List Bytes
+  tS : List Bytes
 
 /-- the property's spec; if it fails, the same spec with the objects of the known classes excused -/
 def judge (orc : Oracle) (d : DS) (prev : List LivePath) (confs : List Conf) (trans : Bool)
@@ -134,16 +136,20 @@ def judge (orc : Oracle) (d : DS) (prev : List LivePath) (confs : List Conf) (tr
   let tO := (d.tO.filter (sameObjectConf prev D)) ++ (match pending with
     | some pend => (misordered orc pend confs D).filter (sameObject prev D)
     | none => [])
-  let sp (exG exO : List Bytes) : Verdict :=
-    match specState orc confs exG exO D with
+  -- a misordered path still running with a stale REGEX configuration closes itself when idle, although the
+  -- pathManager files it under a static configuration
+  let tS := ((d.tS ++ (d.tO.filter fun n => prev.any fun q => q.name == n && q.conf.regex)).filter
+    fun n => !hasPath D n)
+  let sp (exG exO : List Bytes) (exS : List Bytes := []) : Verdict :=
+    match specState orc confs exG exO D exS with
     | .ok => if trans then specTransition orc prev confs exO D else .ok
     | v => v
   let v0 := sp [] []
-  if v0 == .ok then ⟨.ok, tG, tO⟩
-  else if sp tG [] == .ok then ⟨.knownStaleGroups, tG, tO⟩
+  if v0 == .ok then ⟨.ok, tG, tO, tS⟩
+  else if sp tG [] == .ok then ⟨.knownStaleGroups, tG, tO, tS⟩
   else
-    let v1 := sp tG tO
-    if v1 == .ok then ⟨.knownOrder, tG, tO⟩ else ⟨v1, tG, tO⟩
+    let v1 := sp tG tO tS
+    if v1 == .ok then ⟨.knownOrder, tG, tO, tS⟩ else ⟨v1, tG, tO, tS⟩
 
 /-- choose the next model state: the as-is model if it matches, else the fixed variant if that matches,
 else (inside a known class) the implementation's own state -/
@@ -163,7 +169,7 @@ def finish (d : DS) (table : Table) (prev : List LivePath) (st impl : String) (m
   match parsed, j with
   | some _, some j =>
     let (pm', a) := choose prev st impl mU mF j.v parsed
-    ({ d with table := table, pm := pm', tG := j.tG, tO := j.tO }, { model := a, spec := j.v.toStr })
+    ({ d with table := table, pm := pm', tG := j.tG, tO := j.tO, tS := j.tS }, { model := a, spec := j.v.toStr })
   | _, _ =>
     ({ d with table := table, pm := mU }, { model := render prev st mU, spec := "FAIL unparsable implementation answer" })
 
